@@ -351,7 +351,28 @@ func callLApply(neg bool, limit int64, doc, patch []byte) string {
 		if err != nil {
 			return "derr"
 		}
-		return lobs(p.Apply(doc))
+		// the accessors of every decoded operation (they must return, whatever the members are) ...
+		for _, op := range p {
+			op.Kind()
+			_, _ = op.Path()
+			_, _ = op.From()
+			_, _ = op.ValueInterface()
+		}
+		outb, err := p.Apply(doc)
+		// ... and ApplyIndent, which must succeed exactly when Apply does and return the same value
+		if len(patch)%4 == 0 {
+			ib, ierr := p.ApplyIndent(doc, " \t")
+			if (ierr == nil) != (err == nil) {
+				return "err:indent-differs"
+			}
+			if ierr == nil && len(outb) > 0 {
+				var cb bytes.Buffer
+				if cerr := stdCompact(&cb, ib); cerr != nil || !bytes.Equal(cb.Bytes(), outb) {
+					return "err:indent-differs"
+				}
+			}
+		}
+		return lobs(outb, err)
 	})
 }
 
